@@ -6,10 +6,13 @@ cd /repo || exit 2
 if ! git diff --quiet; then echo "/repo is dirty"; exit 2; fi
 git apply "$patch" || { echo "patch does not apply"; exit 2; }
 cd /verif
+# evidence written while a seeded change is applied must not survive: it is restored afterwards
+rm -rf /verif/build/evidence.bak && cp -r /verif/evidence /verif/build/evidence.bak
 for c in "$@"; do
   start=$(date +%s)
   out=$(./check "$c" 2>&1 | grep -v "^\[check\]" | tail -6)
   echo "== $c ($(( $(date +%s) - start ))s)"; echo "$out" | cut -c1-400
 done
+rm -rf /verif/evidence && mv /verif/build/evidence.bak /verif/evidence
 git -C /repo checkout -- . 
 git -C /repo status --short | head -3
